@@ -928,6 +928,8 @@ func (c *Conn) dispatch(fr *FrameHeader, block []byte, endStream bool) bool {
 	// would wedge the RoundTrip that is waiting to take it back.
 	defer r.release()
 
+	r.answering = true
+
 	var err error
 
 	if block != nil {
@@ -952,8 +954,74 @@ func (c *Conn) dispatch(fr *FrameHeader, block []byte, endStream bool) bool {
 		return true
 	}
 
-	return c.state == connStateClosed && fr.Stream() == c.closeRef
+	return c.goAwayDone()
 }
+
+// goAwayDone reports whether the server has sent GOAWAY and every request it
+// left standing has finished, which is when the connection can go. The streams
+// at or below last-stream-id are all still owed their responses, so a frame on
+// one of them says nothing about the others.
+func (c *Conn) goAwayDone() bool {
+	if c.state != connStateClosed {
+		return false
+	}
+
+	c.reqLck.Lock()
+	defer c.reqLck.Unlock()
+
+	return len(c.reqQueued) == 0
+}
+
+// errGoAwayUnprocessed ends a request on a stream above the last-stream-id of
+// a GOAWAY. It counts as a closed connection, so the client sends the request
+// again elsewhere: the server has said it did not and will not act on it.
+var errGoAwayUnprocessed = fmt.Errorf("%w: the server sent GOAWAY before processing the stream", ErrConnectionClosed)
+
+// failAbove ends every request on a stream above last.
+func (c *Conn) failAbove(last uint32) {
+	c.reqLck.Lock()
+
+	var (
+		ids  []uint32
+		ctxs []*Ctx
+	)
+
+	for id, ctx := range c.reqQueued {
+		if id > last {
+			ids = append(ids, id)
+			ctxs = append(ctxs, ctx)
+
+			delete(c.reqQueued, id)
+		}
+	}
+
+	c.reqLck.Unlock()
+
+	for i, ctx := range ctxs {
+		atomic.AddInt32(&c.openStreams, -1)
+
+		c.deletePending(ids[i])
+
+		// A server that has begun to answer a stream has processed it, whatever
+		// its GOAWAY says, and sending that request again would run it twice.
+		err := errGoAwayUnprocessed
+
+		if ctx.acquireFor(c, ids[i]) {
+			if ctx.answering {
+				err = errGoAwayInterrupted
+			}
+
+			ctx.release()
+		}
+
+		ctx.markFinished()
+		ctx.resolve(err)
+	}
+}
+
+// errGoAwayInterrupted ends a request above the last-stream-id of a GOAWAY
+// whose response had already begun to arrive.
+var errGoAwayInterrupted = errors.New("the server sent GOAWAY for a stream it had begun to answer")
 
 func (c *Conn) writeRequest(ctx *Ctx) error {
 	if !c.CanOpenStream() {
@@ -1060,6 +1128,19 @@ func (c *Conn) writeRequest(ctx *Ctx) error {
 	ctx.conn.Store(c)
 	atomic.StoreUint32(&ctx.streamID, id)
 	c.queueReq(id, ctx)
+
+	// A GOAWAY may have arrived since the check at the top. The server will not
+	// act on a stream opened now, so the request is not sent; if the read loop
+	// has found it in the table already, it has ended it as well.
+	if atomic.LoadUint32(&c.goAway) != 0 {
+		ReleaseHeaderField(hf)
+
+		if c.takeReq(id) {
+			return ErrNotAvailableStreams
+		}
+
+		return nil
+	}
 
 	if hasBody {
 		pb := &pendingBody{
@@ -1464,6 +1545,11 @@ loop:
 			// Either way the server has stopped accepting new streams on this
 			// connection, so the client must move to a fresh one.
 			atomic.StoreUint32(&c.goAway, 1)
+
+			// Whatever is above last-stream-id the server has not processed
+			// and will not: those requests end here, and can safely be sent
+			// again on another connection (RFC 7540 6.8).
+			c.failAbove(ga.stream)
 
 			if ga.stream == 0 {
 				_ = c.c.Close()
